@@ -965,19 +965,20 @@ impl XmlCData {
         XmlCData::node("", None, context)
     }
 
-    pub fn delete(&mut self, offset: usize, count: usize) {
-        self.data = delete_char_range(self.data.as_str(), offset, count);
+    pub fn delete(&mut self, offset: usize, count: usize) -> error::Result<()> {
+        self.data = delete_char_range(self.data.as_str(), offset, count, Self::check)?;
+        Ok(())
     }
 
     pub fn insert(&mut self, offset: usize, data: &str) -> error::Result<()> {
-        fn check(value: &str) -> error::Result<bool> {
-            let new = format!("<![CDATA[{}]]>", value);
-            let (rest, _) = xml_parser::cdsect(new.as_str())?;
-            Ok(rest.is_empty())
-        }
-
-        self.data = insert_char_at(self.data.as_str(), offset, data, check)?;
+        self.data = insert_char_at(self.data.as_str(), offset, data, Self::check)?;
         Ok(())
+    }
+
+    fn check(value: &str) -> error::Result<bool> {
+        let new = format!("<![CDATA[{}]]>", value);
+        let (rest, _) = xml_parser::cdsect(new.as_str())?;
+        Ok(rest.is_empty())
     }
 
     pub fn is_empty(&self) -> bool {
@@ -1194,19 +1195,20 @@ impl XmlComment {
         XmlComment::node("", None, context)
     }
 
-    pub fn delete(&mut self, offset: usize, count: usize) {
-        self.comment = delete_char_range(self.comment.as_str(), offset, count);
+    pub fn delete(&mut self, offset: usize, count: usize) -> error::Result<()> {
+        self.comment = delete_char_range(self.comment.as_str(), offset, count, Self::check)?;
+        Ok(())
     }
 
     pub fn insert(&mut self, offset: usize, comment: &str) -> error::Result<()> {
-        fn check(value: &str) -> error::Result<bool> {
-            let new = format!("<!--{}-->", value);
-            let (rest, _) = xml_parser::comment(new.as_str())?;
-            Ok(rest.is_empty())
-        }
-
-        self.comment = insert_char_at(self.comment.as_str(), offset, comment, check)?;
+        self.comment = insert_char_at(self.comment.as_str(), offset, comment, Self::check)?;
         Ok(())
+    }
+
+    fn check(value: &str) -> error::Result<bool> {
+        let new = format!("<!--{}-->", value);
+        let (rest, _) = xml_parser::comment(new.as_str())?;
+        Ok(rest.is_empty())
     }
 
     pub fn is_empty(&self) -> bool {
@@ -3551,18 +3553,19 @@ impl XmlText {
         XmlText::node("", None, context)
     }
 
-    pub fn delete(&mut self, offset: usize, count: usize) {
-        self.text = delete_char_range(self.text.as_str(), offset, count);
+    pub fn delete(&mut self, offset: usize, count: usize) -> error::Result<()> {
+        self.text = delete_char_range(self.text.as_str(), offset, count, Self::check)?;
+        Ok(())
     }
 
     pub fn insert(&mut self, offset: usize, text: &str) -> error::Result<()> {
-        fn check(value: &str) -> error::Result<bool> {
-            let (rest, content) = xml_parser::content(value)?;
-            Ok(rest.is_empty() && content.children.is_empty())
-        }
-
-        self.text = insert_char_at(self.text.as_str(), offset, text, check)?;
+        self.text = insert_char_at(self.text.as_str(), offset, text, Self::check)?;
         Ok(())
+    }
+
+    fn check(value: &str) -> error::Result<bool> {
+        let (rest, content) = xml_parser::content(value)?;
+        Ok(rest.is_empty() && content.children.is_empty())
     }
 
     pub fn is_empty(&self) -> bool {
@@ -4263,7 +4266,10 @@ fn char_from_char16(value: &str) -> error::Result<char> {
     char::from_u32(num).ok_or(error::Error::NotFoundReference(format!("#x{}", value)))
 }
 
-fn delete_char_range(value: &str, offset: usize, count: usize) -> String {
+fn delete_char_range<F>(value: &str, offset: usize, count: usize, check: F) -> error::Result<String>
+where
+    F: Fn(&str) -> error::Result<bool>,
+{
     let mut chars = value.chars().collect::<Vec<char>>();
 
     let s = if offset < chars.len() {
@@ -4276,7 +4282,13 @@ fn delete_char_range(value: &str, offset: usize, count: usize) -> String {
 
     chars.drain(s..e);
 
-    chars.iter().collect()
+    // The characters around the removed range may only be invalid next to each other (`-` + `-`).
+    let deleted = chars.iter().collect::<String>();
+    if check(deleted.as_str())? {
+        Ok(deleted)
+    } else {
+        Err(error::Error::InvalidData(deleted))
+    }
 }
 
 fn equal_qname(a: xml_nom::model::QName, b: xml_nom::model::QName) -> bool {
@@ -4321,14 +4333,16 @@ where
         chars.len()
     };
 
-    if check(new)? {
-        let mut tail = chars.split_off(index);
-        let mut middle = new.chars().collect::<Vec<char>>();
+    let mut tail = chars.split_off(index);
+    let mut middle = new.chars().collect::<Vec<char>>();
 
-        chars.append(&mut middle);
-        chars.append(&mut tail);
+    chars.append(&mut middle);
+    chars.append(&mut tail);
 
-        Ok(chars.iter().collect())
+    // The inserted text may only be invalid together with its neighbours (`]]` + `>`).
+    let inserted = chars.iter().collect::<String>();
+    if check(inserted.as_str())? {
+        Ok(inserted)
     } else {
         Err(error::Error::InvalidData(new.to_string()))
     }
